@@ -98,6 +98,13 @@ func distGen(r *rand.Rand, n int, tier string, emit func(Case)) {
 		c["kind"] = "pair"
 		emit(c)
 	}
+	for i := 0; i < bigExtra(n); i++ { // large sizes
+		l := bigLatticeTo(r, 12, 16)
+		a, b := l.bigPair()
+		c := pairCase(l, a, b, []int{0, 0, 0, 1, 2, 3}[r.Intn(6)])
+		c["kind"] = "pair"
+		emit(c)
+	}
 }
 
 func distOnPanic(c Case) Event {
